@@ -35,7 +35,7 @@ import (
 
 type callT struct {
 	K string `json:"k"` // "add" | "wait"
-	D int    `json:"d,omitempty"`
+	D int    `json:"d"`
 }
 
 type itemT struct {
@@ -445,6 +445,14 @@ var catalogue = []namedProg{
 	{"inc-dec-inc-dec|wait|wait", [][]callT{{add(1), add(-1), add(1), add(-1)}, {wait}, {wait}}},
 	{"inc|dec|inc|dec", [][]callT{{add(1)}, {add(-1)}, {add(1)}, {add(-1)}}},
 	{"inc-inc|dec-wait|dec-wait", [][]callT{{add(1), add(1)}, {add(-1), wait}, {add(-1), wait}}},
+	// Add(0) is an Add call like any other (wg.Add(len(batch)) with an empty batch): on an idle
+	// group, between an Inc and its Dec, and after the group returned to zero
+	{"add0|wait", [][]callT{{add(0)}, {wait}}},
+	{"add0-inc-add0-dec-add0|wait", [][]callT{{add(0), add(1), add(0), add(-1)}, {wait, add(0), wait}}},
+	{"inc-dec|add0-wait", [][]callT{{add(1), add(-1)}, {add(0), wait}}},
+	// increments by more than one from zero, a decrement by more than one reaching exactly zero
+	{"add3-dec-dec2|wait", [][]callT{{add(3), add(-1), add(-2)}, {wait}}},
+	{"add3|dec3-wait", [][]callT{{add(3)}, {add(-3), wait}}},
 }
 
 type corpusEntry struct {
@@ -462,6 +470,10 @@ var corpus = []corpusEntry{
 	{"C02-count1-with-sentinel", [][]callT{{add(1), add(-1)}, {add(1)}, {wait}},
 		[]int{0, 0, 0, 0, 0, 1, 1, 1, 0, 0, 1, 2, 2, 2, 2, 2}},
 	{"sequential", [][]callT{{add(1), wait, add(-1), wait}}, nil},
+	{"add0-idle", [][]callT{{add(0)}}, nil},
+	{"add0-idle-then-cycle", [][]callT{{add(0), wait, add(1), add(-1)}}, nil},
+	{"add0-inside-and-after-cycle", [][]callT{{add(1), add(0), wait, add(-1), add(0), wait}}, nil},
+	{"add3-dec3", [][]callT{{add(3), wait, add(-3)}}, nil},
 	{"add2-dec-dec", [][]callT{{add(2), add(-1), add(-1)}, {wait}}, []int{0, 0, 1, 1, 0, 0, 0, 0}},
 }
 
@@ -478,16 +490,18 @@ func randProg(r *rand.Rand) [][]callT {
 		k := 1 + r.IntN(4)
 		bal := 0
 		for i := 0; i < k; i++ {
-			switch x := r.IntN(10); {
+			switch x := r.IntN(11); {
+			case x == 10:
+				p[t] = append(p[t], add(0))
 			case x < 4:
-				d := 1 + r.IntN(2)
+				d := 1 + r.IntN(3)
 				p[t] = append(p[t], add(d))
 				bal += d
 			case x < 7:
 				// a decrement: mostly of this thread's own balance, sometimes of another thread's
 				d := 1
 				if bal >= 2 && r.IntN(2) == 0 {
-					d = 2
+					d = bal // a decrement by more than one reaching exactly this thread's zero
 				}
 				p[t] = append(p[t], add(-d))
 				bal -= d
